@@ -449,6 +449,11 @@ func normalise(prog *ssa.Program) (map[*ssa.Function]bool, *ssa.VerifNorm, []str
 					why[fn] = "called through a closure value"
 					break
 				}
+				if e.Caller.Func.Synthetic != "" {
+					ok = false
+					why[fn] = "used as a method value or through a wrapper (" + e.Caller.Func.String() + ")"
+					break
+				}
 				ncall++
 			}
 		}
